@@ -14,6 +14,7 @@ DRIVERS = [
     (r"thread_local\.py:ThreadLocal\.", "c15_threadlocal.py"),
     (r"TriggerContext\.evaluate_expression/PRE/call:eval/", "c10_eval_scope.py"),
     (r"^__init__\.py:start/", "c19_app_root.py"),
+    (r"ConfigService\.tracepoint_logger/", "c16_logger_lookup.py"),
 ]
 
 # driver -> properties whose thorough tier runs it natively on the working tree (CPython cross-check of the clauses)
@@ -31,5 +32,6 @@ DRIVER_PROPS = {
     "c16_log_ids.py": ["C16"],
     "c19_env_config.py": ["C19"],
     "c19_app_root.py": ["C19"],
+    "c16_logger_lookup.py": ["C16"],
     "c20_plugin_switch.py": ["C20"],
 }
